@@ -36,7 +36,7 @@ func PageNamesReplay(r io.Reader, w io.Writer) error {
 	bw := bufio.NewWriter(w)
 	defer bw.Flush()
 	enc := json.NewEncoder(bw)
-	n, bad := 0, 0
+	n, bad, badModel, badProp := 0, 0, 0, 0
 	seen := map[string]string{}
 	fixed := map[string]bool{ghtml.PagePlaces(): true, ghtml.PageFamilies(): true, ghtml.PageSources(): true, ghtml.PageStatistics(): true, ghtml.PageSurnames(): true}
 	for sc.Scan() {
@@ -59,13 +59,18 @@ func PageNamesReplay(r io.Reader, w io.Writer) error {
 		case got != want:
 			why = "model"
 		}
-		seen[got] = ptr
 		if why != "" {
 			bad++
-			if bad <= 300 {
+			if why == "model" {
+				badModel++
+			} else {
+				badProp++
+			}
+			if (why == "model" && badModel <= 100) || (why != "model" && badProp <= 300) {
 				enc.Encode(map[string]interface{}{"why": why, "case": c, "obs": map[string]string{"pointer": ptr, "got": got, "want": want, "other": seen[got]}})
 			}
 		}
+		seen[got] = ptr
 	}
 	enc.Encode(map[string]int{"summary": 1, "cases": n, "mismatches": bad})
 	return sc.Err()
